@@ -12,7 +12,8 @@
 //	all_supply   the method calls accountControlsAllSupply
 //	any_grant    the method calls GrantsForAddress (any access on the marker)
 //	unrecognised every other place an Access_* constant (or an unknown Access_ name) shows up,
-//	             rendered as source text: never dropped.
+//	             rendered as source text: never dropped, except where the constant is a direct
+//	             argument of an error / log formatting call (Errorf, Wrapf, Sprintf ...).
 //
 // The helper used and the order of the tests are deliberately not part of a row, so that a
 // behaviour-preserving rewrite of a guard does not change the table; which constant guards
@@ -56,6 +57,9 @@ var predicates = map[string]bool{
 	"ValidateAddressHasAccess": true, "AddressHasAccess": true, "ValidateHasAccess": true, "HasAccess": true,
 	"ValidateAtLeastOneAddrHasAccess": true, "AtLeastOneAddrHasAccess": true,
 }
+
+// calls whose arguments only end up in a message
+var messageOnly = map[string]bool{"Errorf": true, "Wrapf": true, "Wrap": true, "Sprintf": true, "Info": true, "Error": true, "Debug": true}
 
 var known = map[string]bool{"Mint": true, "Burn": true, "Deposit": true, "Withdraw": true, "Delete": true, "Admin": true, "Transfer": true, "ForceTransfer": true}
 
@@ -106,6 +110,9 @@ func recvName(fd *ast.FuncDecl) string {
 
 type fn struct {
 	row     row
+	recv    string          // receiver type name ("" for plain functions)
+	name    string          // bare name
+	calls   map[string]bool // every function / method called, by bare name
 	callees map[string]bool // unexported functions / methods called, by name
 	helper  bool            // unexported
 	emit    bool            // declared in marker.go / msg_server.go
@@ -122,7 +129,7 @@ func analyse(fset *token.FileSet, fd *ast.FuncDecl, file string) *fn {
 		name = r + "." + name
 	}
 	rw := row{Func: name, File: file, Tests: []string{}, Unrecognised: []string{}}
-	out := &fn{callees: map[string]bool{}, helper: isUnexported(fd.Name.Name)}
+	out := &fn{callees: map[string]bool{}, calls: map[string]bool{}, helper: isUnexported(fd.Name.Name), recv: recvName(fd), name: fd.Name.Name}
 	tests := map[string]bool{}
 	consumed := map[ast.Expr]bool{} // Access_ constants that were arguments of a predicate
 	ast.Inspect(fd.Body, func(n ast.Node) bool {
@@ -131,6 +138,9 @@ func analyse(fset *token.FileSet, fd *ast.FuncDecl, file string) *fn {
 			return true
 		}
 		cn := calleeName(c)
+		if cn != "" {
+			out.calls[cn] = true
+		}
 		if cn != "" && isUnexported(cn) {
 			out.callees[cn] = true
 		}
@@ -178,11 +188,18 @@ func analyse(fset *token.FileSet, fd *ast.FuncDecl, file string) *fn {
 			if _, isAcc := accessConst(e); isAcc {
 				// report the innermost enclosing call (or the expression itself)
 				var ctx ast.Node = e
+				formatting := false
 				for i := len(stack) - 2; i >= 0; i-- {
 					if c, ok := stack[i].(*ast.CallExpr); ok {
 						ctx = c
+						formatting = messageOnly[calleeName(c)]
 						break
 					}
+				}
+				if formatting {
+					// the constant is only printed (error / log text): not a guard, not a grant
+					stack = stack[:len(stack)-1]
+					return false
 				}
 				rw.Unrecognised = append(rw.Unrecognised, text(fset, ctx))
 				stack = stack[:len(stack)-1]
@@ -309,6 +326,108 @@ func main() {
 		}
 	}
 	sort.Slice(rows, func(i, j int) bool { return rows[i].Func < rows[j].Func })
-	out, _ := json.MarshalIndent(rows, "", " ")
+
+	// ---- the endpoints of the module -------------------------------------------------------
+	// rpcs: the rpc names of `service Msg` in proto/provenance/marker/v1/tx.proto;
+	// methods: the exported methods of msgServer in the keeper package;
+	// guards: per msgServer method, the rows of the table above that stand in front of it: its own
+	// row and the rows of the exported Keeper methods it calls (directly or through helpers).
+	rpcs, err := protoRPCs(filepath.Join(os.Args[1], "proto", "provenance", "marker", "v1", "tx.proto"))
+	if err != nil {
+		fmt.Fprintln(os.Stderr, err)
+		os.Exit(1)
+	}
+	hasRow := map[string]bool{}
+	for _, r := range rows {
+		hasRow[r.Func] = true
+	}
+	type endpoint struct {
+		Method string   `json:"method"`
+		Guards []string `json:"guards"`
+	}
+	var eps []endpoint
+	for _, x := range all {
+		if x.recv != "msgServer" || x.helper {
+			continue
+		}
+		called := map[string]bool{}
+		for c := range x.calls {
+			called[c] = true
+		}
+		seen := map[*fn]bool{x: true}
+		closure(x, seen)
+		for h := range seen {
+			for c := range h.calls {
+				called[c] = true
+			}
+		}
+		g := []string{}
+		if hasRow["msgServer."+x.name] {
+			g = append(g, "msgServer."+x.name)
+		}
+		for c := range called {
+			if !isUnexported(c) && hasRow["Keeper."+c] {
+				g = append(g, "Keeper."+c)
+			}
+		}
+		sort.Strings(g)
+		eps = append(eps, endpoint{Method: x.name, Guards: g})
+	}
+	sort.Slice(eps, func(i, j int) bool { return eps[i].Method < eps[j].Method })
+	sort.Strings(rpcs)
+	out, _ := json.MarshalIndent(map[string]any{"rows": rows, "rpcs": rpcs, "endpoints": eps}, "", " ")
 	fmt.Println(string(out))
+}
+
+// protoRPCs lists the rpc names of `service Msg { ... }` (comments removed, text scan).
+func protoRPCs(path string) ([]string, error) {
+	raw, err := os.ReadFile(path)
+	if err != nil {
+		return nil, err
+	}
+	var b strings.Builder
+	for _, line := range strings.Split(string(raw), "\n") {
+		if i := strings.Index(line, "//"); i >= 0 {
+			line = line[:i]
+		}
+		b.WriteString(line)
+		b.WriteString(" ")
+	}
+	txt := b.String()
+	i := strings.Index(txt, "service Msg")
+	if i < 0 {
+		return nil, fmt.Errorf("%s: no `service Msg`", path)
+	}
+	txt = txt[i:]
+	open := strings.Index(txt, "{")
+	if open < 0 {
+		return nil, fmt.Errorf("%s: malformed service", path)
+	}
+	depth, end := 0, -1
+	for j := open; j < len(txt); j++ {
+		if txt[j] == '{' {
+			depth++
+		} else if txt[j] == '}' {
+			depth--
+			if depth == 0 {
+				end = j
+				break
+			}
+		}
+	}
+	if end < 0 {
+		return nil, fmt.Errorf("%s: unterminated service", path)
+	}
+	var out []string
+	fields := strings.Fields(txt[open+1 : end])
+	for k := 0; k+1 < len(fields); k++ {
+		if fields[k] == "rpc" {
+			name := fields[k+1]
+			if p := strings.Index(name, "("); p >= 0 {
+				name = name[:p]
+			}
+			out = append(out, name)
+		}
+	}
+	return out, nil
 }
